@@ -218,6 +218,7 @@ func c05(args []string) {
 			cfg := Cfg{Buf: b, Procs: []int{1, 2, 4}[rng.Intn(3)], Sched: fmt.Sprintf("%d,300,800", rng.Intn(1<<30))}
 			if k == 1 {
 				cfg.Buf = b + 1 + rng.Intn(3)
+				cfg.NoHooks = true // the plain library: hooks passive
 			}
 			jobs = append(jobs, &job{s, exp, cfg, "gen"})
 		}
